@@ -214,17 +214,19 @@ func checkC11(c *Ctx) {
 				a, b *types.Func
 				name string
 			}{{subsCreate, addTopic, "Create→AddTopic"}, {subsDelete, rmTopic, "Delete→RemoveTopic"}} {
-				as := core.CallsTo(disp, pair.a)
+				as := c.callsToDeep(disp, 3, pair.a)
 				bad := ""
 				if len(as) == 0 {
 					bad = "no " + pair.a.Name() + " call in the dispatcher"
 				}
 				for _, a := range as {
+					g := a.Instr.Parent() // the dispatcher or the helper that handles this packet type
+					c.R.Fn(c.fname(g))
 					found := false
-					for _, b := range core.CallsTo(disp, pair.b) {
+					for _, b := range core.CallsTo(g, pair.b) {
 						if core.Dominates(a.Instr, b.Instr) && core.Term(a.Arg(1)) == core.Term(b.Arg(0)) {
 							// b must be on the success path of a
-							ok, _, _ := c.guardedByNilResult(disp, a, b.Instr)
+							ok, _, _ := c.guardedByNilResult(g, a, b.Instr)
 							if ok {
 								found = true
 							}
